@@ -236,18 +236,6 @@ impl Visitor<'_, '_> {
     }
 
     /// Constants (`const` items, builtin and enum constants) cannot be written to.
-    fn check_var_is_assignable(&self, var: &Sp<ast::Var>) -> ImplResult {
-        if let Err(def_id) = self.ctx.var_reg_from_ast(&var.name) {
-            if self.ctx.defs.var_const_expr(def_id).is_some() {
-                return Err(self.emit(error!(
-                    message("cannot assign to a constant"),
-                    primary(var, "is a constant"),
-                )));
-            }
-        }
-        Ok(())
-    }
-
     fn check_stmt_expr(
         &self,
         expr: &Sp<ast::Expr>,
@@ -344,6 +332,18 @@ impl Visitor<'_, '_> {
 }
 
 impl ExprTypeChecker<'_, '_> {
+    fn check_var_is_assignable(&self, var: &Sp<ast::Var>) -> ImplResult {
+        if let Err(def_id) = self.ctx.var_reg_from_ast(&var.name) {
+            if self.ctx.defs.var_const_expr(def_id).is_some() {
+                return Err(self.emit(error!(
+                    message("cannot assign to a constant"),
+                    primary(var, "is a constant"),
+                )));
+            }
+        }
+        Ok(())
+    }
+
     fn emit(&self, err: impl crate::diagnostic::IntoDiagnostics) -> ErrorReported {
         self.ctx.emitter.emit(err)
     }
@@ -383,6 +383,7 @@ impl ExprTypeChecker<'_, '_> {
             ast::Expr::XcrementOp { order: _, op, ref var }
             => {
                 let var_ty = self.check_var(var)?;
+                self.check_var_is_assignable(var)?;
 
                 self.require_int(var_ty, op.span, var.span)?;
                 ExprType::Value(var_ty)
